@@ -52,6 +52,33 @@ expressions
                                           module level to the table gen_tables translates and must not be a local
   `self.attr`                             a parameter `attr` of the generated function (methods / properties)
 
+second batch (find_element / guess_elements_from_masses, Atoms.pop, group_duplicates, delete_if_all_in_set)
+  `a, b = e`, `t[i]` on a tuple value     projections
+  `min(xs, key=lambda x: e)` / `max`      `Py.minBy? xs (fun x => e)`: the FIRST extremal item (python's rule); `none` = ValueError
+  `abs(x)`, `T.items()`, `enumerate(xs)`  `Py.abs`, `Py.tableItems`, `Py.enumerate`
+  `a % b` on ints                         `Py.intMod? a b` (sign of the divisor; `none` = ZeroDivisionError)
+  `[f(x) for x in xs]`, f may raise       `Py.listMapM?` (the first exception ends the comprehension)
+  nested `def g(…)` + calls `g(a)`        `g` is translated as its own definition; the variables it reads from the enclosing
+                                          function (declared `closure`, must be unmodified parameters) become leading parameters
+  numeric / bool parameter defaults       a constant `<name>_default_<param>`; a default key FUNCTION is not translated
+  `for x in xs: <body without return>`    a fold over ONE variable defined before the loop: `Py.forFold` / `Py.forFoldM?`
+  `{}`, `k in d`, `d[k] = v`,             insertion-ordered dict = association list with distinct keys: `Py.dictHas`,
+  `d[k].append(x)`, `xs.append(x)`        `Py.dictSet`, `Py.dictAppend?` (`none` = KeyError), `xs ++ [x]`
+  `np.delete(arr, idx, axis=0)`           `Py.npDelete` (= `deleteIdx`, for indices inside the array)
+  `key(m)` for a parameter `key`          application of a function-typed parameter (generic element / key types)
+  `len(self)`, `del(self[[e]])`           a parameter `self_len`; the function is translated as the index list it deletes
+
+sequencing slices (`trace=True`, used for mofun_cli)
+  The body must consist of simple statements (expression statements, assignments, assert, del) and `if`s over them; no
+  loops, no return.  The translation is `List String`: the simple statements that are executed, in program order, as
+  python source text (`ast.unparse`) in which every local is renamed l1, l2, … in the order of its first assignment in the
+  source (names in `keep` and parameters stay), each under the translated guards of the enclosing `if`s
+  (`if c: A else: B` ↦ `(if c then A else B)`, sequence ↦ `++`).  Guards may read the declared parameters
+  (`x is None`, `x is not None`, booleans, `in` on literals) and the declared `abstractions` (expressions such as
+  `inputpath.suffix` or `atoms.cell_is_orthorhombic()` that become parameters of the translation).  A name assigned inside
+  an `if` and used after it, a re-assigned parameter, or a guard outside the subset is `Unsupported`.  What a recorded
+  statement means is stated on the Lean side (Proofs/Code2Cli.lean, `evTable`).
+
 decision slices (`slice=True`, used for angle_params / dihedral_params)
   The floating-point formulas are NOT translated.  An expression is OPAQUE when it mentions a parameter that is not
   declared for the translation, a function that is not in the subset (sqrt, log, cos, bond_params, …), a name that is
@@ -78,7 +105,7 @@ class Unsupported(Exception):
 
 
 # ------------------------------------------------------------------ types
-STR, NAT, INT, NUM, BOOL, VAL, ELEM = "str", "nat", "int", "num", "bool", "val", "elem"
+STR, NAT, INT, NUM, BOOL, VAL, ELEM, KEY = "str", "nat", "int", "num", "bool", "val", "elem", "key"
 INTLIT, DECLIT, OPAQUE, NONE = "intlit", "declit", "opaque", "none"
 
 
@@ -98,6 +125,15 @@ def TUP(*ts):
     return ("tuple", tuple(ts))
 
 
+def DICT(k, v):
+    """insertion-ordered dict: an association list with distinct keys"""
+    return ("dict", k, v)
+
+
+def FUN(a, b):
+    return ("fun", a, b)
+
+
 def lean_ty(t):
     if isinstance(t, tuple):
         if t[0] in ("list", "set"):
@@ -106,7 +142,11 @@ def lean_ty(t):
             return "Option %s" % _paren_ty(t[1])
         if t[0] == "tuple":
             return " × ".join(_paren_ty(x) for x in t[1])
-    return {STR: "String", NAT: "Nat", INT: "Int", NUM: "Rat", BOOL: "Bool", VAL: "Py.Val", ELEM: "α"}[t]
+        if t[0] == "dict":
+            return "List (%s × %s)" % (_paren_ty(t[1]), _paren_ty(t[2]))
+        if t[0] == "fun":
+            return "%s → %s" % (_paren_ty(t[1]), _paren_ty(t[2]))
+    return {STR: "String", NAT: "Nat", INT: "Int", NUM: "Rat", BOOL: "Bool", VAL: "Py.Val", ELEM: "α", KEY: "κ"}[t]
 
 
 def _paren_ty(t):
@@ -166,6 +206,8 @@ class Fn:
         self.partial = cfg.get("partial", False)
         self.ret = cfg["ret"]
         self.ntmp = 0
+        self.fold_state = []
+        self.default_defs = []
         self.node = self._find()
         self.pynames = {n.id for n in ast.walk(self.node) if isinstance(n, ast.Name)} | \
                        {a.arg for a in self.node.args.args} | set(cfg.get("attrs", {}))
@@ -173,7 +215,7 @@ class Fn:
         self.sites.sort(key=lambda n: (n.lineno, n.col_offset))
         self.locals_assigned = {t.id for n in ast.walk(self.node) if isinstance(n, (ast.Assign, ast.For))
                                 for t in ast.walk(n.targets[0] if isinstance(n, ast.Assign) else n.target)
-                                if isinstance(t, ast.Name)}
+                                if isinstance(t, ast.Name) and isinstance(t.ctx, ast.Store)}
 
     # -------------------------------------------------------------- helpers
     def fail(self, node, msg):
@@ -192,8 +234,20 @@ class Fn:
             raise Unsupported("%s: function %s not found" % (self.path, self.cfg["py"]))
         fn = fns[-1]
         decos = [ast.unparse(d) for d in fn.decorator_list]
-        if decos != self.cfg.get("decorators", []):
+        if self.cfg.get("decorators") != "any" and decos != self.cfg.get("decorators", []):
             raise Unsupported("%s:%d: decorators of %s are %r" % (self.path, fn.lineno, fn.name, decos))
+        self.outer = None
+        if self.cfg.get("inner"):
+            inner = [n for n in fn.body if isinstance(n, ast.FunctionDef) and n.name == self.cfg["inner"]]
+            if len(inner) != 1 or inner[0].decorator_list:
+                raise Unsupported("%s:%d: nested function %s of %s not found" % (self.path, fn.lineno, self.cfg["inner"], fn.name))
+            self.outer, fn = fn, inner[0]
+            outer_params = {a.arg for a in self.outer.args.args}
+            assigned = {t.id for n in ast.walk(self.outer) if isinstance(n, (ast.Assign, ast.AugAssign, ast.For))
+                        for t in ast.walk(n.targets[0] if isinstance(n, ast.Assign) else n.target) if isinstance(t, ast.Name)}
+            for c, _ in self.cfg.get("closure", []):
+                if c not in outer_params or c in assigned:
+                    raise Unsupported("%s:%d: %s is not an unmodified parameter of %s" % (self.path, fn.lineno, c, self.outer.name))
         a = fn.args
         if a.vararg or a.kwarg or a.kwonlyargs or a.posonlyargs:
             raise Unsupported("%s:%d: %s: only plain positional parameters are supported" % (self.path, fn.lineno, fn.name))
@@ -249,6 +303,8 @@ class Fn:
             return V("((%s : Nat) : Int)" % v.term, INT, v.binds, v.refs)
         if v.ty == STR and ty == VAL:
             return V("(Py.Val.str %s)" % v.term, VAL, v.binds, v.refs)
+        if v.ty == "emptydict" and isinstance(ty, tuple) and ty[0] == "dict":
+            return V("[]", ty)
         if isinstance(v.ty, tuple) and isinstance(ty, tuple) and v.ty[0] in ("list", "set") and ty[0] in ("list", "set") \
                 and v.items is not None:
             items = [self.coerce(node, x, ty[1]) for x in v.items]
@@ -302,6 +358,12 @@ class Fn:
 
     # -------------------------------------------------------------- expressions
     def ex(self, node, env, want=None):
+        ab = self.cfg.get("abstractions")
+        if ab and isinstance(node, (ast.Attribute, ast.Call)):
+            key = ast.unparse(node)
+            if key in ab:                       # an expression the translation takes as a parameter
+                nm, ty = ab[key]
+                return V(nm, ty, (), {nm})
         m = getattr(self, "ex_" + type(node).__name__, None)
         if m is None:
             if self.slice:
@@ -417,6 +479,9 @@ class Fn:
                 if a.ty != STR:
                     self.fail(node, "table key of type %s" % (a.ty,))
                 term = "(Py.tableHas %s %s)" % (b.term, a.term)
+            elif isinstance(b.ty, tuple) and b.ty[0] == "dict":
+                a = self.coerce(node, a, b.ty[1])
+                term = "(Py.dictHas %s %s)" % (b.term, a.term)
             elif isinstance(b.ty, tuple) and b.ty[0] in ("list", "set"):
                 ety = self.unify(node, [a.ty, b.ty[1]])
                 a, b = self.coerce(node, a, ety), self.coerce(node, b, (b.ty[0], ety))
@@ -428,7 +493,10 @@ class Fn:
                 term = "(!%s)" % term
             return V(term, BOOL, binds, refs)
         if isinstance(op, (ast.Is, ast.IsNot)):
-            self.fail(node, "`is` is supported only as the test of an `if` on an optional parameter")
+            if isinstance(a.ty, tuple) and a.ty[0] == "opt" and b.ty == NONE:
+                fn = "Option.isNone" if isinstance(op, ast.Is) else "Option.isSome"
+                return V("(%s %s)" % (fn, a.term), BOOL, a.binds, a.refs)
+            self.fail(node, "`is` is supported only between an optional parameter and None")
         ty = self.unify(node, [a.ty, b.ty])
         a, b = self.coerce(node, a, ty), self.coerce(node, b, ty)
         binds, refs = _join(a, b)
@@ -468,6 +536,13 @@ class Fn:
             return V("(%s %s %s)" % (fn, a.term, b.term), ty, binds, refs)
         if ty not in (NAT, INT, NUM):
             self.fail(node, "arithmetic on %s" % (ty,))
+        if isinstance(node.op, ast.Mod):
+            if ty == NUM:
+                self.fail(node, "% on floats")
+            a, b = self.coerce(node, a, INT), self.coerce(node, b, INT)
+            binds, refs = _join(a, b)
+            r = self.rebind("(Py.intMod? %s %s)" % (a.term, b.term), INT, refs)
+            return V(r.term, INT, binds + r.binds, r.refs)
         if isinstance(node.op, ast.Div):
             ty = NUM
             if b.ty not in (INTLIT, DECLIT) or (b.lit if b.ty == INTLIT else b.lit[0]) == 0:
@@ -534,6 +609,11 @@ class Fn:
             hi = self.const_index(sl.upper)
             return V("(Py.strSlice %s %d %d)" % (base.term, lo, hi), STR, base.binds, base.refs)
         i = self.const_index(sl)
+        if isinstance(base.ty, tuple) and base.ty[0] == "tuple" and base.items is None:
+            n = len(base.ty[1])
+            if i >= n:
+                self.fail(node, "index %d outside a tuple of %d components" % (i, n))
+            return V(self.proj(base.term, i, n), base.ty[1][i], base.binds, base.refs)
         if base.items is not None:
             if i >= len(base.items):
                 self.fail(node, "index %d outside a list of %d elements" % (i, len(base.items)))
@@ -546,6 +626,12 @@ class Fn:
             r = self.rebind("(%s[%d]?)" % (base.term, i), base.ty[1], base.refs)
             return V(r.term, base.ty[1], base.binds + r.binds, r.refs)
         self.fail(node, "subscript of a value of type %s" % (base.ty,))
+
+    @staticmethod
+    def proj(term, i, n):
+        """component i of an n-tuple (right-nested pairs)"""
+        t = term + ".2" * i
+        return "%s.1" % t if i < n - 1 else t
 
     def const_index(self, node):
         if isinstance(node, ast.Constant) and isinstance(node.value, int) and not isinstance(node.value, bool) and node.value >= 0:
@@ -581,19 +667,101 @@ class Fn:
         if body.ty == OPAQUE:
             return V.opaque()
         if body.binds:
-            self.fail(node, "comprehension whose element may raise")
+            inner = set(body.refs)
+            for _, _, r_ in body.binds:
+                inner |= r_
+            inner -= {nm} | {b[0] for b in body.binds}
+            r = self.rebind("(Py.listMapM? %s (fun %s => %s))" % (src.term, nm, self.close(body)), LIST(body.ty), inner | src.refs)
+            return V(r.term, LIST(body.ty), src.binds + r.binds, r.refs)
         return V("(List.map (fun %s => %s) %s)" % (nm, body.term, src.term), LIST(body.ty), src.binds, (body.refs - {nm}) | src.refs)
 
+    def ex_Lambda(self, node, env, want):
+        self.fail(node, "lambda is supported only as `key=` of min / max")
+
+    def ex_Dict(self, node, env, want):
+        if node.keys:
+            self.fail(node, "only the empty dict literal is supported")
+        return V("[]", "emptydict")
+
+    def key_lambda(self, node, env, ety):
+        """`key=lambda x: e` -> (Lean function term, refs); the key must be a number"""
+        if not isinstance(node, ast.Lambda) or len(node.args.args) != 1 or node.args.defaults or node.args.vararg or node.args.kwarg:
+            self.fail(node, "key= must be a one-argument lambda")
+        x = node.args.args[0].arg
+        nm = self.lname(x)
+        e2 = dict(env)
+        e2[x] = V(nm, ety, (), {nm})
+        body = self.ex(node.body, e2)
+        if body.binds:
+            self.fail(node, "key function that may raise")
+        body = self.coerce(node, body, NUM)
+        return "(fun %s => %s)" % (nm, body.term), body.refs - {nm}
+
     def ex_Call(self, node, env, want):
+        f = node.func
+        kw = {k.arg: k.value for k in node.keywords}
+        # min / max with a key function: the FIRST extremal element
+        if isinstance(f, ast.Name) and f.id in ("min", "max") and f.id not in env and set(kw) == {"key"} and len(node.args) == 1:
+            xs = self.ex(node.args[0], env)
+            if xs.ty == OPAQUE:
+                return V.opaque()
+            if not (isinstance(xs.ty, tuple) and xs.ty[0] == "list"):
+                self.fail(node, "%s(…, key=…) over %s" % (f.id, xs.ty))
+            fn, refs = self.key_lambda(kw["key"], env, xs.ty[1])
+            r = self.rebind("(Py.%sBy? %s %s)" % (f.id, xs.term, fn), xs.ty[1], refs | xs.refs)
+            return V(r.term, xs.ty[1], xs.binds + r.binds, r.refs)
+        # np.delete(arr, idx, axis=0)
+        if isinstance(f, ast.Attribute) and isinstance(f.value, ast.Name) and f.value.id == "np" and "np" not in env and \
+                f.attr == "delete" and len(node.args) == 2 and set(kw) == {"axis"} and \
+                isinstance(kw["axis"], ast.Constant) and kw["axis"].value == 0:
+            a, idx = self.ex(node.args[0], env), self.ex(node.args[1], env)
+            if OPAQUE in (a.ty, idx.ty):
+                return V.opaque()
+            if not (isinstance(a.ty, tuple) and a.ty[0] == "list") or idx.ty != LIST(NAT):
+                self.fail(node, "np.delete(%s, %s, axis=0)" % (a.ty, idx.ty))
+            binds, refs = _join(a, idx)
+            return V("(Py.npDelete %s %s)" % (a.term, idx.term), a.ty, binds, refs)
         if node.keywords:
             if self.slice:
                 return V.opaque()
             self.fail(node, "keyword arguments")
-        f = node.func
+        # len(self)
+        if isinstance(f, ast.Name) and f.id == "len" and "len" not in env and len(node.args) == 1 and \
+                isinstance(node.args[0], ast.Name) and node.args[0].id == "self" and "self.__len__" in env:
+            return env["self.__len__"]
+        # a parameter that is a function
+        if isinstance(f, ast.Name) and f.id in env and isinstance(env[f.id].ty, tuple) and env[f.id].ty[0] == "fun" and len(node.args) == 1:
+            a = self.coerce(node, self.ex(node.args[0], env), env[f.id].ty[1])
+            return V("(%s %s)" % (env[f.id].term, a.term), env[f.id].ty[2], a.binds, a.refs | env[f.id].refs)
+        # a nested function that is translated separately
+        if isinstance(f, ast.Name) and f.id in self.cfg.get("calls", {}) and f.id not in env:
+            other = [c for c in FUNCTIONS if c["lean"] == self.cfg["calls"][f.id]][0]
+            args = [self.ex(a, env) for a in node.args]
+            if len(args) != len(other["params"]):
+                self.fail(node, "call of %s with %d arguments" % (f.id, len(args)))
+            cl = [self.ex(ast.Name(id=c, ctx=ast.Load(), lineno=node.lineno, col_offset=0), env) for c, _ in other.get("closure", [])]
+            cl = [self.coerce(node, v, t) for v, (_, t) in zip(cl, other.get("closure", []))]
+            args = [self.coerce(node, v, t) for v, (_, t) in zip(args, other["params"])]
+            binds, refs = _join(*(cl + args))
+            term = "(%s %s)" % (other["lean"], " ".join(v.term for v in cl + args))
+            if other.get("partial"):
+                r = self.rebind(term, other["ret"], refs)
+                return V(r.term, other["ret"], binds + r.binds, r.refs)
+            return V(term, other["ret"], binds, refs)
         if isinstance(f, ast.Name) and f.id not in env:
             args = [self.ex(a, env) for a in node.args]
             if any(a.ty == OPAQUE for a in args):
                 return V.opaque()
+            if f.id == "abs" and len(args) == 1:
+                a = args[0]
+                if a.ty in (INTLIT, DECLIT):
+                    a = self.coerce(node, a, NUM)
+                if a.ty == NUM:
+                    return V("(Py.abs %s)" % a.term, NUM, a.binds, a.refs)
+                self.fail(node, "abs of %s" % (a.ty,))
+            if f.id == "enumerate" and len(args) == 1 and isinstance(args[0].ty, tuple) and args[0].ty[0] == "list":
+                a = args[0]
+                return V("(Py.enumerate %s)" % a.term, LIST(TUP(NAT, a.ty[1])), a.binds, a.refs)
             if f.id == "len" and len(args) == 1:
                 a = args[0]
                 if a.ty == STR:
@@ -628,9 +796,6 @@ class Fn:
             if f.id == "set" and len(args) == 1 and isinstance(args[0].ty, tuple) and args[0].ty[0] in ("list", "set"):
                 a = args[0]
                 return V(a.term, SET(a.ty[1]), a.binds, a.refs, a.items)
-            for other in FUNCTIONS:
-                if other.get("callable_as") == f.id:
-                    self.fail(node, "calls between translated functions are not supported yet")
             if self.slice:
                 return V.opaque()
             self.fail(node, "call of %s" % f.id)
@@ -639,6 +804,8 @@ class Fn:
             args = [self.ex(a, env) for a in node.args]
             if obj.ty == OPAQUE or any(a.ty == OPAQUE for a in args):
                 return V.opaque()
+            if obj.ty == ("table", "decdict") and f.attr == "items" and not args:
+                return V("(Py.tableItems %s)" % obj.term, LIST(TUP(STR, NUM)))
             if obj.ty == STR and f.attr == "strip" and len(args) == 1 and args[0].ty == STR:
                 binds, refs = _join(obj, args[0])
                 return V("(Py.strStrip %s %s)" % (obj.term, args[0].term), STR, binds, refs)
@@ -670,6 +837,9 @@ class Fn:
                 return self.block(conts[0], env, conts[1:], mode)
             if mode == "loop":
                 return ("end",)
+            if mode == "fold":
+                st = self.fold_state[-1]
+                return ("ret", env[st])
             if isinstance(self.ret, tuple) and self.ret[0] == "opt" and not self.cfg.get("tagged"):
                 return ("ret", V("none", self.ret))
             raise Unsupported("%s: %s can fall off its end (returns None)" % (self.path, self.cfg["py"]))
@@ -705,7 +875,80 @@ class Fn:
                 e2 = dict(env)
                 e2[x] = V(nm, v.ty, (), {nm})
                 return ("let", nm, V("(List.reverse %s)" % v.term, v.ty, (), v.refs), self.block(rest, e2, conts, mode))
+            # xs.append(v)  /  d[k].append(v)
+            if isinstance(c, ast.Call) and isinstance(c.func, ast.Attribute) and c.func.attr == "append" and \
+                    len(c.args) == 1 and not c.keywords:
+                tgt = c.func.value
+                if isinstance(tgt, ast.Name) and tgt.id in env and isinstance(env[tgt.id].ty, tuple) and env[tgt.id].ty[0] == "list" \
+                        and env[tgt.id].items is None:
+                    xs = env[tgt.id]
+                    v = self.coerce(s, self.ex(c.args[0], env), xs.ty[1])
+                    nm = self.lname(tgt.id)
+                    e2 = dict(env)
+                    e2[tgt.id] = V(nm, xs.ty, (), {nm})
+                    return self.with_binds(v.binds, ("let", nm, V("(%s ++ [%s])" % (xs.term, v.term), xs.ty, (), xs.refs | v.refs),
+                                                     self.block(rest, e2, conts, mode)))
+                if isinstance(tgt, ast.Subscript) and isinstance(tgt.value, ast.Name) and tgt.value.id in env and \
+                        isinstance(env[tgt.value.id].ty, tuple) and env[tgt.value.id].ty[0] == "dict":
+                    d = env[tgt.value.id]
+                    if not (isinstance(d.ty[2], tuple) and d.ty[2][0] == "list"):
+                        self.fail(s, "append to a dict value of type %s" % (d.ty[2],))
+                    k = self.coerce(s, self.ex(tgt.slice, env), d.ty[1])
+                    v = self.coerce(s, self.ex(c.args[0], env), d.ty[2][1])
+                    nm = self.lname(tgt.value.id)
+                    e2 = dict(env)
+                    e2[tgt.value.id] = V(nm, d.ty, (), {nm})
+                    binds = k.binds + v.binds + [(nm, "(Py.dictAppend? %s %s %s)" % (d.term, k.term, v.term), d.refs | k.refs | v.refs)]
+                    return self.with_binds(binds, self.block(rest, e2, conts, mode))
             self.fail(s, "expression statement %s" % ast.unparse(s)[:60])
+        if isinstance(s, ast.FunctionDef):
+            if s.name in self.cfg.get("calls", {}):
+                return self.block(rest, env, conts, mode)      # translated separately, see `calls`
+            self.fail(s, "nested function %s" % s.name)
+        if isinstance(s, ast.Delete) and self.cfg.get("del_self_index"):
+            # `del(self[[e]])`: the function is translated as the index list it deletes
+            t = s.targets
+            if rest or len(t) != 1 or not (isinstance(t[0], ast.Subscript) and isinstance(t[0].value, ast.Name) and
+                                           t[0].value.id == "self" and isinstance(t[0].slice, ast.List)):
+                self.fail(s, "del statement %s" % ast.unparse(s))
+            items = [self.coerce(s, self.ex(e, env), INT) for e in t[0].slice.elts]
+            v = self.mklist(items, LIST(INT))
+            return self.with_binds(v.binds, ("ret", V(v.term, v.ty, (), v.refs)))
+        if isinstance(s, ast.Assign) and len(s.targets) == 1 and isinstance(s.targets[0], ast.Subscript) and \
+                isinstance(s.targets[0].value, ast.Name) and s.targets[0].value.id in env and \
+                isinstance(env[s.targets[0].value.id].ty, tuple) and env[s.targets[0].value.id].ty[0] == "dict":
+            # d[k] = v
+            x = s.targets[0].value.id
+            d = env[x]
+            k = self.coerce(s, self.ex(s.targets[0].slice, env), d.ty[1])
+            v = self.coerce(s, self.ex(s.value, env), d.ty[2])
+            nm = self.lname(x)
+            e2 = dict(env)
+            e2[x] = V(nm, d.ty, (), {nm})
+            return self.with_binds(k.binds + v.binds, ("let", nm, V("(Py.dictSet %s %s %s)" % (d.term, k.term, v.term), d.ty, (),
+                                                                    d.refs | k.refs | v.refs), self.block(rest, e2, conts, mode)))
+        if isinstance(s, ast.Assign) and len(s.targets) == 1 and isinstance(s.targets[0], ast.Tuple) and \
+                all(isinstance(e, ast.Name) for e in s.targets[0].elts):
+            # a, b = e    (e a tuple value)
+            v = self.ex(s.value, env)
+            if v.ty == OPAQUE:
+                e2 = dict(env)
+                for e in s.targets[0].elts:
+                    e2[e.id] = V.opaque()
+                return self.block(rest, e2, conts, mode)
+            n = len(s.targets[0].elts)
+            if not (isinstance(v.ty, tuple) and v.ty[0] == "tuple" and len(v.ty[1]) == n):
+                self.fail(s, "unpacking a value of type %s into %d names" % (v.ty, n))
+            e2 = dict(env)
+            lets = []
+            for i, e in enumerate(s.targets[0].elts):
+                nm = self.lname(e.id)
+                lets.append((nm, V(self.proj(v.term, i, n), v.ty[1][i], (), v.refs)))
+                e2[e.id] = V(nm, v.ty[1][i], (), {nm})
+            ir = self.block(rest, e2, conts, mode)
+            for nm, val in reversed(lets):
+                ir = ("let", nm, val, ir)
+            return self.with_binds(v.binds, ir)
         if isinstance(s, ast.Assign):
             if len(s.targets) != 1 or not isinstance(s.targets[0], ast.Name):
                 self.fail(s, "assignment target")
@@ -713,6 +956,8 @@ class Fn:
             if x in TABLES or x == "self":
                 self.fail(s, "assignment to %s" % x)
             v = self.ex(s.value, env)
+            if x in self.cfg.get("locals", {}) and v.ty != OPAQUE:
+                v = self.coerce(s, v, self.cfg["locals"][x])
             e2 = dict(env)
             if v.ty == OPAQUE or v.ty == NONE:
                 if v.ty == NONE and not self.slice:
@@ -819,7 +1064,8 @@ class Fn:
         return self.with_binds(c.binds, ("if", V(c.prop or c.term, BOOL, (), c.refs), a, b))
 
     def for_ir(self, s, rest, env, conts, mode):
-        if s.orelse or mode == "loop" or self.partial:
+        has_return = any(isinstance(n, ast.Return) for n in ast.walk(ast.Module(body=s.body, type_ignores=[])))
+        if s.orelse or mode in ("loop", "fold") or (self.partial and has_return):
             self.fail(s, "for loop in this position")
         it = self.ex(s.iter, env)
         if not (isinstance(it.ty, tuple) and it.ty[0] == "list") or it.binds:
@@ -838,11 +1084,41 @@ class Fn:
             pat = "(%s)" % ", ".join(names)
         else:
             self.fail(s, "for target")
+        if not has_return:
+            return self.fold_ir(s, rest, env, conts, mode, it, e2, pat, set(names))
         for n in ast.walk(ast.Module(body=s.body, type_ignores=[])):
             if isinstance(n, (ast.Assign, ast.AugAssign, ast.Break, ast.Continue, ast.For, ast.While)):
                 self.fail(n, "loop body may contain only `if` and `return`")
         body = self.block(s.body, e2, [], "loop")
         return ("for", it, pat, set(names), body, self.block(rest, env, conts, mode))
+
+    def fold_ir(self, s, rest, env, conts, mode, it, e2, pat, patnames):
+        """a loop that updates ONE variable defined before it: `x = Py.forFold xs x (fun x pat => body)`"""
+        changed = []
+        for n in ast.walk(ast.Module(body=s.body, type_ignores=[])):
+            if isinstance(n, (ast.AugAssign, ast.Break, ast.Continue, ast.For, ast.While, ast.Raise)):
+                self.fail(n, "statement %s in a loop body" % type(n).__name__)
+            tgt = None
+            if isinstance(n, ast.Assign) and len(n.targets) == 1:
+                t = n.targets[0]
+                tgt = t.id if isinstance(t, ast.Name) else (t.value.id if isinstance(t, ast.Subscript) and isinstance(t.value, ast.Name) else None)
+            if isinstance(n, ast.Expr) and isinstance(n.value, ast.Call) and isinstance(n.value.func, ast.Attribute) and n.value.func.attr == "append":
+                t = n.value.func.value
+                tgt = t.id if isinstance(t, ast.Name) else (t.value.id if isinstance(t, ast.Subscript) and isinstance(t.value, ast.Name) else None)
+            if tgt is not None and tgt in env and tgt not in changed:
+                changed.append(tgt)
+        if len(changed) != 1:
+            self.fail(s, "a loop must update exactly one variable defined before it (updates: %r)" % changed)
+        x = changed[0]
+        init = env[x]
+        nm = self.lname(x)
+        e2[x] = V(nm, init.ty, (), {nm})
+        self.fold_state.append(x)
+        body = self.block(s.body, e2, [], "fold")
+        self.fold_state.pop()
+        e3 = dict(env)
+        e3[x] = V(nm, init.ty, (), {nm})
+        return ("fold", nm, it, pat, patnames, init, body, self.block(rest, e3, conts, mode))
 
     # -------------------------------------------------------------- IR -> Lean text
     def fv(self, ir):
@@ -861,7 +1137,17 @@ class Fn:
             return ir[1].refs | (self.fv(ir[3]) - {ir[2]}) | self.fv(ir[4])
         if k == "for":
             return ir[1].refs | (self.fv(ir[4]) - ir[3]) | self.fv(ir[5])
+        if k == "fold":
+            return ir[2].refs | ir[5].refs | (self.fv(ir[6]) - ir[4] - {ir[1]}) | (self.fv(ir[7]) - {ir[1]})
         raise AssertionError(k)
+
+    def raises(self, ir):
+        """does this IR contain a binding that may fail or a raise"""
+        k = ir[0]
+        if k in ("bind", "raise"):
+            return True
+        return any(self.raises(x) for x in ir[1:] if isinstance(x, tuple) and x and isinstance(x[0], str) and
+                   x[0] in ("ret", "raise", "end", "let", "bind", "if", "matchopt", "for", "fold"))
 
     def dce(self, ir):
         """drop `let`s nobody uses; in a slice also bindings nobody uses"""
@@ -880,6 +1166,8 @@ class Fn:
             return ("matchopt", ir[1], ir[2], self.dce(ir[3]), self.dce(ir[4]))
         if k == "for":
             return ("for", ir[1], ir[2], ir[3], self.dce(ir[4]), self.dce(ir[5]))
+        if k == "fold":
+            return ("fold", ir[1], ir[2], ir[3], ir[4], ir[5], self.dce(ir[6]), self.dce(ir[7]))
         return ir
 
     def emit(self, ir, ind, mode):
@@ -887,7 +1175,7 @@ class Fn:
         k = ir[0]
         if k == "ret":
             t = ir[1].term
-            return [pad + {"total": t, "partial": "pure %s" % t, "loop": "some %s" % t}[mode]]
+            return [pad + {"total": t, "partial": "pure %s" % t, "loop": "some %s" % t, "foldM": "pure %s" % t}[mode]]
         if k == "raise":
             return [pad + "none  -- %s" % ir[1]]
         if k == "end":
@@ -906,11 +1194,96 @@ class Fn:
         if k == "matchopt":
             return [pad + "match %s with" % ir[1].term, pad + "| some %s =>" % ir[2]] + self.emit(ir[3], ind + 1, mode) + \
                    [pad + "| none =>"] + self.emit(ir[4], ind + 1, mode)
+        if k == "fold":
+            m = self.raises(ir[6])
+            if m and mode not in ("partial", "foldM"):
+                raise Unsupported("%s: the loop body of %s may raise but the function is declared total" % (self.path, self.cfg["py"]))
+            head = "let %s ← Py.forFoldM? %s %s (fun %s %s => do" if m else "let %s : " + lean_ty(ir[5].ty) + " := Py.forFold %s %s (fun %s %s =>"
+            return [pad + head % (ir[1], ir[2].term, ir[5].term, ir[1], ir[3])] + self.emit(ir[6], ind + 2, "foldM" if m else "total") + \
+                   [pad + "    )"] + self.emit(ir[7], ind, mode)
         if k == "for":
             r = self.tmp()
             return [pad + "match Py.forFirst %s (fun %s =>" % (ir[1].term, ir[2])] + self.emit(ir[4], ind + 2, "loop") + \
                    [pad + "    ) with", pad + "| some %s => %s" % (r, r), pad + "| none =>"] + self.emit(ir[5], ind + 1, mode)
         raise AssertionError(k)
+
+    # -------------------------------------------------------------- call traces (sequencing slices)
+    def trace_names(self):
+        """alpha-normalisation: every name the function stores (except parameters and the `keep` names) becomes l1, l2, …
+        in the order of its first store in the source text"""
+        keep = set(self.cfg.get("keep", [])) | {a.arg for a in self.node.args.args}
+        stores = sorted((n for n in ast.walk(self.node) if isinstance(n, ast.Name) and isinstance(n.ctx, ast.Store)),
+                        key=lambda n: (n.lineno, n.col_offset))
+        ren = {}
+        for n in stores:
+            if n.id not in keep and n.id not in ren:
+                ren[n.id] = "l%d" % (len(ren) + 1)
+        for new in ren.values():
+            if new in self.pynames and new not in ren:
+                raise Unsupported("%s: name %s clashes with the canonical local names" % (self.cfg["py"], new))
+        return ren
+
+    def trace_text(self, s, ren):
+        import copy
+
+        class R(ast.NodeTransformer):
+            def visit_Name(self, n):
+                return ast.copy_location(ast.Name(id=ren.get(n.id, n.id), ctx=n.ctx), n)
+        return ast.unparse(R().visit(copy.deepcopy(s)))
+
+    def trace_block(self, stmts, env, ren):
+        """parts: ('ev', [statement texts]) | ('if', cond V, parts, parts)"""
+        parts = []
+        for i, s in enumerate(stmts):
+            if isinstance(s, ast.Expr) and isinstance(s.value, ast.Constant) and isinstance(s.value.value, str):
+                continue
+            if isinstance(s, ast.If):
+                c = self.cond(s.test, env)
+                if c.ty == OPAQUE or c.binds:
+                    self.fail(s, "a guard outside the supported subset: %s" % ast.unparse(s.test))
+                stored = {n.id for n in ast.walk(s) if isinstance(n, ast.Name) and isinstance(n.ctx, ast.Store)} - set(self.cfg.get("keep", []))
+                later = {n.id for t in stmts[i + 1:] for n in ast.walk(t) if isinstance(n, ast.Name) and isinstance(n.ctx, ast.Load)}
+                if stored & later:
+                    self.fail(s, "names assigned inside this `if` are used after it: %s" % sorted(stored & later))
+                parts.append(("if", c, self.trace_block(s.body, env, ren), self.trace_block(s.orelse, env, ren)))
+            elif isinstance(s, (ast.Expr, ast.Assign, ast.AugAssign, ast.Assert, ast.Delete, ast.Pass)):
+                for n in ast.walk(s):
+                    if isinstance(n, ast.Name) and isinstance(n.ctx, ast.Store) and n.id in {a.arg for a in self.node.args.args}:
+                        self.fail(s, "parameter %s is re-assigned" % n.id)
+                if isinstance(s, ast.Pass):
+                    continue
+                if parts and parts[-1][0] == "ev":
+                    parts[-1][1].append(self.trace_text(s, ren))
+                else:
+                    parts.append(("ev", [self.trace_text(s, ren)]))
+            else:
+                self.fail(s, "statement %s in a sequencing slice" % type(s).__name__)
+        return parts
+
+    def trace_refs(self, parts):
+        r = set()
+        for p in parts:
+            if p[0] == "if":
+                r |= p[1].refs | self.trace_refs(p[2]) | self.trace_refs(p[3])
+        return r
+
+    def trace_emit(self, parts, ind):
+        pad = "  " * ind
+        if not parts:
+            return [pad + "[]"]
+        out = []
+        for j, p in enumerate(parts):
+            if p[0] == "ev":
+                lines = [pad + ("[" if k == 0 else " ") + _lean_str(t).replace("\n", "\\n") + ("," if k + 1 < len(p[1]) else "]")
+                         for k, t in enumerate(p[1])]
+            else:
+                lines = [pad + "(if %s then" % (p[1].prop or p[1].term)] + self.trace_emit(p[2], ind + 1) + [pad + "else"] + \
+                        self.trace_emit(p[3], ind + 1)
+                lines[-1] += ")"
+            if j + 1 < len(parts):
+                lines[-1] += " ++"
+            out += lines
+        return out
 
     # -------------------------------------------------------------- the definition
     def translate(self):
@@ -925,9 +1298,13 @@ class Fn:
             env["self"] = V("self", OPAQUE)
             names = names[1:]
             for attr, ty in cfg["attrs"].items():
-                nm = self.lname(attr)
+                nm = "self_len" if attr == "__len__" else self.lname(attr)
                 env["self." + attr] = V(nm, ty, (), {nm})
                 params.append((nm, ty))
+        for c, ty in cfg.get("closure", []):            # variables of the enclosing function a nested function reads
+            nm = self.lname(c)
+            env[c] = V(nm, ty, (), {nm})
+            params.append((nm, ty))
         if not self.slice and names != [p for p, _ in cfg["params"]]:
             raise Unsupported("%s:%d: parameters of %s are %r, the translator expects %r" %
                               (self.path, fn.lineno, cfg["py"], names, [p for p, _ in cfg["params"]]))
@@ -936,7 +1313,22 @@ class Fn:
                 ty = declared[p]
                 if p in defaults:
                     d = defaults[p]
-                    if not (isinstance(d, ast.Constant) and d.value is None and isinstance(ty, tuple) and ty[0] == "opt"):
+                    if ty in (NUM, INT, NAT):
+                        # a numeric default becomes a constant of its own: `<lean>_default_<param>`
+                        try:
+                            dv = self.coerce(d, self.ex(d, {}), ty)
+                        except Unsupported:
+                            dv = None
+                        if dv is None or dv.lit is None:
+                            raise Unsupported("%s:%d: default of %s.%s is %s" % (self.path, fn.lineno, cfg["py"], p, ast.unparse(d)))
+                        self.default_defs.append("/-- the default `%s=%s` of `%s` -/\ndef %s_default_%s : %s := %s" %
+                                                 (p, ast.unparse(d), cfg["py"], cfg["lean"], p, lean_ty(ty), dv.term))
+                    elif ty == BOOL and isinstance(d, ast.Constant) and isinstance(d.value, bool):
+                        self.default_defs.append("/-- the default `%s=%s` of `%s` -/\ndef %s_default_%s : Bool := %s" %
+                                                 (p, d.value, cfg["py"], cfg["lean"], p, "true" if d.value else "false"))
+                    elif isinstance(ty, tuple) and ty[0] == "fun":
+                        pass                                  # a default key function is not translated: the caller passes one
+                    elif not (isinstance(d, ast.Constant) and d.value is None and isinstance(ty, tuple) and ty[0] == "opt"):
                         raise Unsupported("%s:%d: default of %s.%s is %s" % (self.path, fn.lineno, cfg["py"], p, ast.unparse(d)))
                 elif isinstance(ty, tuple) and ty[0] == "opt":
                     raise Unsupported("%s:%d: %s.%s no longer defaults to None" % (self.path, fn.lineno, cfg["py"], p))
@@ -948,6 +1340,15 @@ class Fn:
         missing = [p for p in declared if p not in names]
         if missing:
             raise Unsupported("%s:%d: %s has no parameter %s" % (self.path, fn.lineno, cfg["py"], missing))
+        if cfg.get("trace"):
+            for nm, ty in cfg.get("abstractions", {}).values():
+                params.append((nm, ty))
+            parts = self.trace_block(fn.body, env, self.trace_names())
+            used = self.trace_refs(parts)
+            params = [(n, t) for n, t in params if n in used]
+            sig = "def %s%s : List String :=" % (cfg["lean"], "".join(" (%s : %s)" % (n, lean_ty(t)) for n, t in params))
+            doc = "/-- translated from `%s` in %s%s -/" % (cfg["py"], cfg["file"], cfg.get("doc", ""))
+            return "\n\n".join(self.default_defs + ["\n".join([doc, sig] + self.trace_emit(parts, 1))])
         mode = "partial" if self.partial else "total"
         ir = self.dce(self.block(fn.body, env, [], mode))
         used = self.fv(ir)
@@ -961,12 +1362,13 @@ class Fn:
         if self.partial:
             rty = "Option (%s)" % rty if " " in rty else "Option %s" % rty
         generic = any("α" in lean_ty(t) for _, t in params)
-        sig = "def %s%s%s : %s :=%s" % (cfg["lean"], " {α} [LT α] [DecidableEq α] [DecidableLT α]" if generic else "",
+        sig = "def %s%s%s : %s :=%s" % (cfg["lean"], (" " + cfg.get("generic", "{α} [LT α] [DecidableEq α] [DecidableLT α]")) if generic else "",
                                         "".join(" (%s : %s)" % (n, lean_ty(t)) for n, t in params), rty,
                                         " do" if self.partial else "")
         where = "%s%s" % (cfg["file"], (" class " + cfg["cls"]) if cfg.get("cls") else "")
-        doc = "/-- translated from `%s` in %s%s -/" % (cfg["py"], where, cfg.get("doc", ""))
-        return "\n".join([doc, sig] + body)
+        pyname = "%s.%s" % (cfg["py"], cfg["inner"]) if cfg.get("inner") else cfg["py"]
+        doc = "/-- translated from `%s` in %s%s -/" % (pyname, where, cfg.get("doc", ""))
+        return "\n\n".join(self.default_defs + ["\n".join([doc, sig] + body)])
 
 
 class UnboundLocal(Exception):
@@ -1000,6 +1402,37 @@ FUNCTIONS = [
          params=[("a1", STR), ("a2", STR), ("a3", STR), ("a4", STR)], ret=None,
          doc=" (decision slice: which `return` is reached and its d, n; the float formulas are not translated); "
              "`none` = the explicit `raise`"),
+]
+
+FUNCTIONS += [
+    # ---- second batch
+    dict(file="mofun/helpers.py", py="guess_elements_from_masses", inner="find_element", lean="findElement",
+         closure=[("max_delta", NUM)], params=[("elmass", NUM)], ret=STR, partial=True,
+         doc="; `max_delta` is read from the enclosing function; `none` = the explicit `raise` (or ValueError on an empty table)"),
+    dict(file="mofun/helpers.py", py="guess_elements_from_masses", lean="guessElementsFromMasses",
+         params=[("masses", LIST(NUM)), ("max_delta", NUM)], ret=LIST(STR), partial=True, calls={"find_element": "findElement"},
+         doc="; `none` = the first mass without an element raises"),
+    dict(file="mofun/atoms.py", cls="Atoms", py="pop", lean="popIndex", params=[("pos", INT)], attrs={"__len__": NAT},
+         ret=LIST(INT), partial=True, del_self_index=True,
+         doc=": the index list handed to `__delitem__` by `del(self[[…]])`; `none` = ZeroDivisionError"),
+    dict(file="mofun/helpers.py", py="group_duplicates", lean="groupDuplicates", generic="{α κ} [DecidableEq κ]",
+         params=[("match_indices", LIST(ELEM)), ("key", FUN(ELEM, KEY))], locals={"keyed_tuples": DICT(KEY, LIST(ELEM))},
+         ret=DICT(KEY, LIST(ELEM)), partial=True,
+         doc="; the dict is an association list in insertion order; `none` = KeyError (never raised, see the theorem); "
+             "the default `key` is not translated"),
+    dict(file="mofun/cli/mofun_cli.py", py="mofun_cli", lean="mofunCliTrace", slice=True, trace=True, decorators="any", ret=None,
+         keep=["atoms"],
+         params=[("find_path", OPT(STR)), ("replace_path", OPT(STR)), ("atol", NUM), ("replace_fraction", NUM),
+                 ("dumppath", OPT(STR)), ("extract_uc_path", OPT(STR)), ("chargefile", OPT(STR)),
+                 ("replicate", OPT(TUP(NAT, NAT, NAT))), ("mic", OPT(NUM)), ("framework_element", OPT(STR)), ("pp", BOOL)],
+         abstractions={"inputpath.suffix": ("inputpath_suffix", STR), "outputpath.suffix": ("outputpath_suffix", STR),
+                       "atoms.cell_is_orthorhombic()": ("cell_is_orthorhombic", BOOL)},
+         doc=" (SEQUENCING slice: the simple statements the function executes, in order, as source text with the locals "
+             "renamed l1, l2, … in order of first assignment, under the guards of the `if`s; parameters: the options the "
+             "guards read, the two path suffixes, and the answer of `atoms.cell_is_orthorhombic()`)"),
+    dict(file="mofun/rough_uff.py", py="delete_if_all_in_set", lean="deleteIfAllInSet",
+         params=[("arr", LIST(LIST(NAT))), ("s", SET(NAT))], locals={"deletion_list": LIST(NAT)}, ret=LIST(LIST(NAT)),
+         doc="; `arr` is the list of rows of the 2-D index array"),
 ]
 
 PRELUDE = r'''/- GENERATED on every run by harness/gen_code.py from the sources of /repo — do not edit.
@@ -1063,6 +1496,77 @@ def forFirst {α β} : List α → (α → Option β) → Option β
     match f x with
     | some r => some r
     | none => forFirst xs f
+
+/-- `abs(x)` -/
+def abs (x : Rat) : Rat := if x < 0 then -x else x
+
+/-- `T.items()` of a `{str: float}` table, in source order -/
+def tableItems (tbl : List (String × Dec)) : List (String × Rat) := tbl.map (fun p => (p.1, p.2.toRat))
+
+/-- python `min(it, key=f)` after the first item has been taken: the running best is replaced only by a STRICTLY
+    smaller key, so the FIRST minimal item wins -/
+def minByAux {α} (key : α → Rat) : α → List α → α
+  | best, [] => best
+  | best, e :: es => if key e < key best then minByAux key e es else minByAux key best es
+/-- `min(xs, key=f)`; `none` = ValueError on an empty sequence -/
+def minBy? {α} (xs : List α) (key : α → Rat) : Option α :=
+  match xs with
+  | [] => none
+  | e :: es => some (minByAux key e es)
+/-- `max(xs, key=f)`: the FIRST maximal item; `none` = ValueError -/
+def maxByAux {α} (key : α → Rat) : α → List α → α
+  | best, [] => best
+  | best, e :: es => if key best < key e then maxByAux key e es else maxByAux key best es
+def maxBy? {α} (xs : List α) (key : α → Rat) : Option α :=
+  match xs with
+  | [] => none
+  | e :: es => some (maxByAux key e es)
+
+/-- `[f(x) for x in xs]` where `f` may raise: the first exception ends the comprehension -/
+def listMapM? {α β} : List α → (α → Option β) → Option (List β)
+  | [], _ => some []
+  | x :: xs, f =>
+    match f x with
+    | none => none
+    | some y =>
+      match listMapM? xs f with
+      | none => none
+      | some ys => some (y :: ys)
+
+/-- python `a % b` on ints (the result has the sign of `b`); `none` = ZeroDivisionError -/
+def intMod? (a b : Int) : Option Int := if b = 0 then none else some (Int.fmod a b)
+
+/-- `for x in xs: <body updating st>` -/
+def forFold {α σ} : List α → σ → (σ → α → σ) → σ
+  | [], st, _ => st
+  | x :: xs, st, f => forFold xs (f st x) f
+/-- the same when the body may raise -/
+def forFoldM? {α σ} : List α → σ → (σ → α → Option σ) → Option σ
+  | [], st, _ => some st
+  | x :: xs, st, f =>
+    match f st x with
+    | none => none
+    | some st' => forFoldM? xs st' f
+
+/-- `enumerate(xs)` -/
+def enumerateFrom {α} : Nat → List α → List (Nat × α)
+  | _, [] => []
+  | i, x :: xs => (i, x) :: enumerateFrom (i + 1) xs
+def enumerate {α} (xs : List α) : List (Nat × α) := enumerateFrom 0 xs
+
+/-- `np.delete(arr, idx, axis=0)` for indices inside the array -/
+def npDelete {α} (arr : List α) (idx : List Nat) : List α := deleteIdx arr idx
+
+/-! insertion-ordered dicts are association lists with distinct keys -/
+
+/-- `k in d` -/
+def dictHas {κ β} [DecidableEq κ] (d : List (κ × β)) (k : κ) : Bool := d.any (fun p => p.1 = k)
+/-- `d[k] = v`: a new key goes to the end, an existing key keeps its position -/
+def dictSet {κ β} [DecidableEq κ] (d : List (κ × β)) (k : κ) (v : β) : List (κ × β) :=
+  if dictHas d k then d.map (fun p => if p.1 = k then (p.1, v) else p) else d ++ [(k, v)]
+/-- `d[k].append(x)`; `none` = KeyError -/
+def dictAppend? {κ β} [DecidableEq κ] (d : List (κ × List β)) (k : κ) (x : β) : Option (List (κ × List β)) :=
+  if dictHas d k then some (d.map (fun p => if p.1 = k then (p.1, p.2 ++ [x]) else p)) else none
 
 /-- `s[i]` (a one-character string); `none` = IndexError.  Python strings are sequences of code points. -/
 def strIndex? (s : String) (i : Nat) : Option String := s.toList[i]?.map String.singleton
